@@ -266,6 +266,7 @@ class Gen:
       elif xs and k < .6: xs.pop()
       elif len(xs) >= 2 and k < .75:
         i, j = r.sample(range(len(xs)), 2); xs[i], xs[j] = xs[j], xs[i]
+      elif k < .88: xs.insert(r.randrange(len(xs) + 1), self.value(1, sym))     # lengths differ and the items shift
       else: xs.append(self.value(1, sym))
       return Lv(sym, xs)
     if t == 7:
@@ -635,10 +636,30 @@ def oracle(case):
                        dict(kind='sort', vals=cur, fam=case['fam'])))
   return hits
 
+def has_twin(v):
+  if v[0] == 9: return v[3] != 0 or any(has_twin(x) for _, x in v[2])
+  if v[0] == 6: return any(has_twin(x) for x in v[2])
+  if v[0] == 8: return any(has_twin(x) for _, x in v[2])
+  return False
+
+def twin_quirk_present(ctx):
+  """Replays the witness of the open finding (two classes, one __qualname__) on the implementation.  The model
+  (PObj uid, Err ERecursion) describes the unrepaired behaviour; once the witness no longer fails, pairs holding
+  both classes are left out of the model/implementation comparison (the laws are still checked on them)."""
+  for f in ctx.open_findings():
+    if 'same-qualname-different-class' in f['signature']:
+      w = f['witness']
+      return any('same-qualname-different-class' in sig for sig, _, _ in oracle(dict(kind='pair', vals=w['vals'], fam=w.get('fam', 'num'), noself=True)))
+  import pyglove as pg
+  a, b = build(Ov('A', [('x', Iv(1)), ('y', Iv(2))])), build(Ov('A', [('x', Iv(1)), ('y', Iv(2))], uid=1))
+  return _try(lambda: pg.lt(a, b)) == ('raise', 'RecursionError')
+
 def run(ctx):
   info = ctx.regen('Gen/TypeOrder.v', type_order.translate)
   ctx.build()
   classes()
+  twin_quirk = twin_quirk_present(ctx)
+  ctx.extra['quirks'] = dict(same_qualname_lt_recursion=twin_quirk)
   cases = make_cases(ctx)
   # de-duplicate
   seen, uniq = set(), []
@@ -655,6 +676,8 @@ def run(ctx):
       if norm_float(readback(build(v))) != norm_float(v):
         bad_build += 1
         ctx.log('GENERATOR: tree not realised exactly: %s -> %s' % (trlib.to_line(v), trlib.to_line(readback(build(v)))))
+    if not twin_quirk and any(has_twin(v) for v in c['vals']):
+      continue        # behaviour after a repair of the open finding is not modelled; the oracle below still runs on the case
     for w, f in expand(c):
       wire.append(w); impl.append(f()); owner.append(ci)
   if bad_build:
